@@ -21,13 +21,13 @@ func init() {
 }
 
 type c11Case struct {
-	Method     string     `json:"method"`
-	Major      int        `json:"major"`
-	Minor      int        `json:"minor"`
-	Connection [][]string `json:"-"`
+	Method     string      `json:"method"`
+	Major      int         `json:"major"`
+	Minor      int         `json:"minor"`
+	Connection [][]string  `json:"-"`
 	Hdr        http.Header `json:"header"`
-	Protos     []string   `json:"server_protocols"`
-	Pre        string     `json:"pipelined_hex,omitempty"`
+	Protos     []string    `json:"server_protocols"`
+	Pre        string      `json:"pipelined_hex,omitempty"`
 }
 
 func tokenOK(vals []string, token string) bool {
